@@ -58,6 +58,7 @@ macro_rules! spelling_table {
     ($name:ident, $unwind:literal, $( $text:literal => $op:expr, $len:literal; )+) => {
         #[kani::proof]
         #[kani::unwind($unwind)]
+        #[kani::solver(minisat)]
         #[kani::stub(std::mem::drop, crate::ast::field_expr::verif_kani::common::mem_drop__leak)]
         fn $name() {
             $( assert!(lexes_to($text, $op, $len), $text); )+
@@ -74,40 +75,43 @@ spelling_table!(spelling_table__in_eq_ne, 6,
     "ne !" => Op::Ordering(OrderingOp::NotEqual), 2;
     "!= !" => Op::Ordering(OrderingOp::NotEqual), 2;
 );
-spelling_table!(spelling_table__ge_le, 6,
-    "ge !" => Op::Ordering(OrderingOp::GreaterThanEqual), 2;
-    ">= !" => Op::Ordering(OrderingOp::GreaterThanEqual), 2;
-    "le !" => Op::Ordering(OrderingOp::LessThanEqual), 2;
-    "<= !" => Op::Ordering(OrderingOp::LessThanEqual), 2;
-);
-spelling_table!(spelling_table__gt_lt, 6,
-    "gt !" => Op::Ordering(OrderingOp::GreaterThan), 2;
-    "> !" => Op::Ordering(OrderingOp::GreaterThan), 1;
-    "lt !" => Op::Ordering(OrderingOp::LessThan), 2;
-    "< !" => Op::Ordering(OrderingOp::LessThan), 1;
-);
-spelling_table!(spelling_table__bitwise_and, 16,
-    "& !" => Op::Int(IntOp::BitwiseAnd), 1;
-    "bitwise_and !" => Op::Int(IntOp::BitwiseAnd), 11;
-);
-spelling_table!(spelling_table__contains_matches, 12,
-    "contains !" => Op::Bytes(BytesOp::Contains), 8;
-    "~ !" => Op::Bytes(BytesOp::Matches), 1;
-    "matches !" => Op::Bytes(BytesOp::Matches), 7;
-);
-spelling_table!(spelling_table__wildcard, 12,
+// one spelling per obligation from here on: the k-th spelling tried costs k failed
+// `expect`s (groups of 3-4 did not finish in 500 s on a loaded machine)
+spelling_table!(spelling_table__word_ge, 6, "ge !" => Op::Ordering(OrderingOp::GreaterThanEqual), 2;);
+spelling_table!(spelling_table__symbol_ge, 6, ">= !" => Op::Ordering(OrderingOp::GreaterThanEqual), 2;);
+spelling_table!(spelling_table__word_le, 6, "le !" => Op::Ordering(OrderingOp::LessThanEqual), 2;);
+spelling_table!(spelling_table__symbol_le, 6, "<= !" => Op::Ordering(OrderingOp::LessThanEqual), 2;);
+spelling_table!(spelling_table__word_gt, 6, "gt !" => Op::Ordering(OrderingOp::GreaterThan), 2;);
+spelling_table!(spelling_table__symbol_gt, 6, "> !" => Op::Ordering(OrderingOp::GreaterThan), 1;);
+spelling_table!(spelling_table__word_lt, 6, "lt !" => Op::Ordering(OrderingOp::LessThan), 2;);
+spelling_table!(spelling_table__symbol_lt, 6, "< !" => Op::Ordering(OrderingOp::LessThan), 1;);
+spelling_table!(spelling_table__symbol_bitwise_and, 6, "& !" => Op::Int(IntOp::BitwiseAnd), 1;);
+spelling_table!(spelling_table__word_bitwise_and, 14, "bitwise_and !" => Op::Int(IntOp::BitwiseAnd), 11;);
+spelling_table!(spelling_table__word_contains, 12, "contains !" => Op::Bytes(BytesOp::Contains), 8;);
+spelling_table!(spelling_table__symbol_matches, 6, "~ !" => Op::Bytes(BytesOp::Matches), 1;);
+spelling_table!(spelling_table__word_matches, 10, "matches !" => Op::Bytes(BytesOp::Matches), 7;);
+spelling_table!(spelling_table__word_wildcard, 12,
     "wildcard !" => Op::Bytes(BytesOp::Wildcard), 8;
 );
-spelling_table!(spelling_table__strict_wildcard, 20,
+spelling_table!(spelling_table__word_strict_wildcard, 20,
     "strict wildcard !" => Op::Bytes(BytesOp::StrictWildcard), 15;
 );
 
 /// Anything else is not an operator (error located at the start of the text).
 #[kani::proof]
-#[kani::unwind(8)]
+#[kani::unwind(4)]
+#[kani::solver(minisat)]
 #[kani::stub(std::mem::drop, crate::ast::field_expr::verif_kani::common::mem_drop__leak)]
 fn spelling_table__not_an_operator() {
     assert!(is_no_operator("!"));
+    kani::cover!(true, "table completed");
+}
+
+#[kani::proof]
+#[kani::unwind(4)]
+#[kani::solver(minisat)]
+#[kani::stub(std::mem::drop, crate::ast::field_expr::verif_kani::common::mem_drop__leak)]
+fn spelling_table__end_of_input_is_not_an_operator() {
     assert!(is_no_operator(""));
     kani::cover!(true, "table completed");
 }
